@@ -176,14 +176,21 @@ pub fn read_tree(dir: &Path) -> BTreeMap<String, String> {
 /// Build from abstract modules through `add_module` / `build` / `write_module`.
 pub fn build_modules(mods: &[(ItemPath, grammar::Module)], ptrw: usize, mut opts: Opts) -> Outcome {
     let trace: Rc<RefCell<Vec<Event>>> = Rc::new(RefCell::new(vec![]));
-    if opts.trace {
+    {
+        // every in-process build runs under an iteration bound, so that a resolution loop that
+        // stopped terminating shows up as a (guarded) panic instead of hanging the check
         let t = trace.clone();
+        let keep = opts.trace;
         NEW_KEY.with(|f| f.set(false));
+        let mut bound = IterationBound::default();
         pyxis::verif::set_sink(Some(Box::new(move |e| {
-            if let Event::RegistryAdd { replaced: pyxis::verif::Replaced::None, .. } = &e {
-                NEW_KEY.with(|f| f.set(true));
+            bound.observe(&e);
+            if keep {
+                if let Event::RegistryAdd { replaced: pyxis::verif::Replaced::None, .. } = &e {
+                    NEW_KEY.with(|f| f.set(true));
+                }
+                t.borrow_mut().push(e)
             }
-            t.borrow_mut().push(e)
         })));
     }
     if let Some(s) = opts.scheduler.take() {
@@ -239,6 +246,38 @@ pub fn build_modules(mods: &[(ItemPath, grammar::Module)], ptrw: usize, mut opts
     };
     let trace = std::mem::take(&mut *trace.borrow_mut());
     Outcome { result, trace }
+}
+
+/// Online bound on the resolution loop: every iteration but the last resolves an item or
+/// generates a vftable struct, so iteration n can only start while
+/// n <= unresolved items at the start + structs generated since + 1.
+#[derive(Default)]
+pub struct IterationBound {
+    first: usize,
+    generated: usize,
+    started: bool,
+}
+
+impl IterationBound {
+    pub fn observe(&mut self, e: &Event) {
+        match e {
+            Event::IterationStart { n, worklist } => {
+                if *n == 1 {
+                    self.first = worklist.len();
+                    self.generated = 0;
+                    self.started = true;
+                }
+                if *n > self.first + self.generated + 1 {
+                    panic!(
+                        "ITERATION-BOUND-EXCEEDED: iteration {n} with {} unresolved items at the start and {} generated since",
+                        self.first, self.generated
+                    );
+                }
+            }
+            Event::RegistryAdd { .. } if self.started => self.generated += 1,
+            _ => {}
+        }
+    }
 }
 
 /// relative file path ("a/b.pyxis") -> module path, as the property describes it
@@ -297,7 +336,10 @@ pub fn build_dir(files: &[(String, String)], ptrw: usize) -> Result<BTreeMap<Str
     std::fs::create_dir_all(&in_dir).unwrap();
     std::fs::create_dir_all(&out_dir).unwrap();
     write_tree(&in_dir, files);
+    let mut bound = IterationBound::default();
+    pyxis::verif::set_sink(Some(Box::new(move |e| bound.observe(&e))));
     let r = guarded(|| pyxis::build(&in_dir, &out_dir, ptrw));
+    pyxis::verif::set_sink(None);
     match r {
         Err(p) => Err(BuildErr {
             stage: Stage::Panic,
